@@ -86,6 +86,8 @@ CODE_LINES = ["x = 1", "", "  indented", "> not quote", "- not list", "# no head
               # characters str.splitlines() treats as line ends but Markdown does not (FF is left out: marko itself turns it into LF)
               "sep\u2028arator", "nel\x85here", "vt\x0btab fs\x1cx"]
 ALERTS = ["NOTE", "TIP", "IMPORTANT", "WARNING", "CAUTION"]
+FRONTMATTER = ("---\ntitle: \"It's a 'test'... of **everything**\"\ntags:\n  - a\n  -   \"b c\"\n\nlong: " + "word " * 40 +
+               "\nurl: http://x.y/z?a=1&b=2\n---\n")
 
 
 @dataclass
@@ -760,6 +762,11 @@ def gen_doc(seed: int, profile: str = "core", layout_seed: int | None = None, wi
     s = Ser(ls, profile, wild=wild_layout)
     lines = s.blocks(tree)
     text = "\n".join(ln for ln, _ in lines) + "\n"
+    if scale > 1 and g.r.random() < 0.3:
+        # YAML frontmatter in front of the document: every option must reach the body on this path too, and nothing may touch
+        # the block itself (quotes, dot runs, Markdown syntax, a long line)
+        g.feats.add("frontmatter")
+        text = FRONTMATTER + text
     return Doc(text=text, feats=set(g.feats), tree=tree, seed=seed, layout_seed=ls, profile=profile)
 
 
